@@ -17,6 +17,10 @@ For `Hypergraph` the whole case is replayed through the Lean model (Drivers/C07.
 `HG.copy` / `HG.pickleRoundTrip` / `HG.ofNetwork`, edits on either side) and compared step by step.
 """
 import copy as pycopy
+import datetime
+import decimal
+import enum
+import fractions
 import glob
 import itertools
 import json
@@ -26,9 +30,11 @@ import types
 import warnings
 from collections import deque
 
+import numpy as np
 import xgi
 from xgi.exception import IDNotFound, XGIError
 
+from .. import c07_families as FAM
 from .. import hg as MH
 from ..core import Infra, TRUSTED_COMMON, VERIF, build_and_audit, canon, dec_id, enc_id, enc_val, finish, idkey, jhash, run_driver
 from ..fn import all_small_hypergraphs, conclude
@@ -221,7 +227,8 @@ def counter_stale(s):
 
 # ----------------------------------------------------------------------------- object-graph walk
 
-ATOMS = (int, float, complex, str, bytes, bool, type(None), range, type(Ellipsis), type(NotImplemented))
+ATOMS = (int, float, complex, str, bytes, bool, type(None), range, type(Ellipsis), type(NotImplemented),
+         datetime.date, datetime.time, datetime.timedelta, enum.Enum, np.generic, fractions.Fraction, decimal.Decimal)
 CODE = (type, types.FunctionType, types.BuiltinFunctionType, types.ModuleType, types.MethodDescriptorType,
         types.WrapperDescriptorType, property, staticmethod, classmethod)
 
@@ -425,6 +432,8 @@ def call_dh(H, op):
         return H.remove_node_from_edge(dec_id(op["e"]), dec_id(op["n"]), op["direction"])
     if name == "clear":
         return H.clear()
+    if name == "freeze":
+        return H.freeze()
     raise AssertionError(name)
 
 
@@ -450,6 +459,8 @@ def call_sc(H, op):
         return H.remove_node(dec_id(op["n"]))
     if name == "clear":
         return H.clear()
+    if name == "freeze":
+        return H.freeze()
     raise AssertionError(name)
 
 
@@ -640,12 +651,24 @@ def gen_op_sc(rng, nodes, eids):
     return {"op": "clear"}
 
 
+# tuple node labels and tuple edge IDs (the directed and the simplicial class are not replayed through a model here, so the
+# alphabet is free; sources that the format sniffers of add_*_from garble are skipped as "violates another property's invariant")
+TUPLE_NODES = [[(0, 0), (0, 1), (1, 1), (1, 0)], [(0,), (1, 2), "a", 3, ("a", 1)], [0, 1, (2, 3), (4, (5, 6))]]
+TUPLE_EIDS = [[(1, 2), (0, 0), ("e", 0), 5, "x"], [(0,), (1,), (2,), (3,)], [1, 2, (1, 2), ((1, 2), 3)]]
+
+
 def gen_other(rng, cls):
     nodes, eids = rng.choice(MH.NODE_UNIVERSES), rng.choice(MH.EDGE_UNIVERSES)
+    if rng.random() < 0.2:
+        nodes = rng.choice(TUPLE_NODES)
+    if rng.random() < 0.25:
+        eids = rng.choice(TUPLE_EIDS)
     if cls == "SimplicialComplex":
         eids = [e for e in eids if e != 0] or [1, 2]     # add_simplex(idx=0) is C04's finding F4, not exercised here
     gen = gen_op_dh if cls == "DiHypergraph" else gen_op_sc
     build = [gen(rng, nodes, eids) for _ in range(rng.randint(1, 9))] + _decor_ops(rng, nodes, eids, rng.randint(0, 4))
+    if rng.random() < 0.12:                              # a frozen source: every clone must be unfrozen and editable
+        build.append({"op": "freeze"})
     return build, (gen, nodes, eids)
 
 
@@ -877,7 +900,20 @@ def load_corpus():
         try:
             j = json.load(open(f))
             c = j.get("case", j)
-            if isinstance(c, dict) and "class" in c and "route" in c:
+            if isinstance(c, dict) and "class" in c and "route" in c and "family" not in c:
+                cases.append(c)
+        except Exception:  # noqa
+            pass
+    return cases
+
+
+def load_family_corpus():
+    cases = []
+    for f in sorted(glob.glob(os.path.join(VERIF, "corpus", "C07", "*.json"))):
+        try:
+            j = json.load(open(f))
+            c = j.get("case", j)
+            if isinstance(c, dict) and "family" in c and "class" in c and "route" in c:
                 cases.append(c)
         except Exception:  # noqa
             pass
@@ -959,6 +995,46 @@ def run_cases(ctx, cases, model_ok, tag="gen"):
     return len(dis)
 
 
+# ----------------------------------------------------------------------------- families outside the JSON op alphabet
+
+WALKERS = (walk, attr_dicts, describe_shared)
+
+
+def run_family_cases(ctx, cases, tag="family"):
+    """harness/c07_families.py: regime (large), labels (tuple / unreadable-by-float / > 2**53 IDs), values (containers of
+    every kind as attribute values), classes (trivial subclasses, frozen sources), twice (the same source cloned repeatedly
+    with edits in between)"""
+    for case in cases:
+        fam = case.get("family", "?")
+        try:
+            fails, info = FAM.evaluate(case, WALKERS)
+        except FAM.Skip:
+            ctx.stats[f"family:{fam}:skipped_source_breaks_other_property"] += 1
+            continue
+        ctx.evaluations += 1
+        ctx.stats[f"family:{fam}:{case['class']}"] += 1
+        ctx.stats[f"family-route:{case['route']}:{case.get('script', 'basic')}"] += 1
+        if case.get("sub"):
+            ctx.stats["family:source_is_a_trivial_subclass"] += 1
+        if case.get("frozen"):
+            ctx.stats["family:source_frozen:" + case["class"]] += 1
+        ctx.stats["family:max_nodes"] = max(ctx.stats["family:max_nodes"], info["nodes"])
+        ctx.stats["family:max_parallel_edges"] = max(ctx.stats["family:max_parallel_edges"], info["parallel"])
+        ctx.stats["family:nested_values_poked"] += info.get("poked", 0)
+        if info["edges"]:
+            ctx.nontrivial.add(jhash([fam, case["class"], case["route"], case.get("script"), case["npool"], case["epool"], case["n"],
+                                      case["edges"], case.get("nattr"), case.get("frozen"), case.get("sub")]))
+        seen = set()
+        for site, slug, detail in fails:
+            if (site, slug) in seen:
+                continue
+            seen.add((site, slug))
+            ctx.violation(site, slug, FAM.shrink(case, slug, WALKERS), detail=detail)
+        if tag == "family" and fam in ("regime", "twice"):
+            ctx.sample({"family": fam, "class": case["class"], "route": case["route"], "script": case.get("script"), "npool": case["npool"],
+                        "epool": case["epool"], "nodes": info["nodes"], "edges": info["edges"], "parallel_edges": info["parallel"]}, cap=6)
+
+
 # ----------------------------------------------------------------------------- directed class: model of C02 + C02/Copy.lean
 
 WEIGHTS_D = {"copy": 8, "pickle": 8, "construct": 8, "freeze": 3, "add_edge": 20, "remove_edge": 8, "set_net_attr": 3}
@@ -1035,7 +1111,10 @@ def run(ctx):
                 "isolated nodes, removals, merges) and decorated with nested mutable attribute values (lists/dicts/sets inside dicts) at node, "
                 "edge and network level; each network cloned by copy(), pickle round trip and Class(network); then 2-8 edits on either side "
                 "(public mutators, in-place writes to attribute dicts, nested in-place edits through copy()) and automatic-id additions on "
-                "both sides; non-trivial = distinct (class, route, source snapshot) with an edge of >= 2 members")
+                "both sides; non-trivial = distinct (class, route, source snapshot) with an edge of >= 2 members.  Plus the families of "
+                "harness/c07_families.py per run and class: the same source cloned repeatedly with edits in between (state across calls, compared with a fresh "
+                "computation), one network with 70-90 nodes / >= 130 parallel edges / labels above 2**53, attribute values of every container kind, trivial "
+                "subclasses and frozen sources, and every exotic label / edge-ID pool")
     rng = ctx.rng
     cases = load_corpus()
     ctx.stats["corpus_cases"] = len(cases)
@@ -1046,6 +1125,11 @@ def run(ctx):
     for _ in range(ctx.n(100, 2000)):
         cases += gen_cases(rng, "SimplicialComplex")
     ndis = run_cases(ctx, cases, model_ok=True)
+    fam = load_family_corpus()
+    ctx.stats["corpus_cases"] += len(fam)
+    for _ in range(ctx.n(3, 1)):
+        fam += FAM.gen_cases(rng, quick=ctx.quick)
+    run_family_cases(ctx, fam)
     ndis += run_directed_model(ctx, ok)
     if not ctx.quick:
         ex = list(exhaustive_cases())
@@ -1059,9 +1143,13 @@ def run(ctx):
         for _ in range(ctx.n(300, 4000)):
             more += gen_cases(rng, rng.choice(list(CLASSES)))
         run_cases(ctx, more, model_ok=False, tag="search")
+        run_family_cases(ctx, [c for _ in range(ctx.n(3, 10)) for c in FAM.gen_cases(rng, quick=True)], tag="search")
     conclude(ctx, ok, ndis, search=search)
     ctx.assumptions = [
-        "IDs restricted to int/str/tuple; attribute values: scalars, and lists/dicts/sets nested in each other",
+        "op-alphabet cases: IDs int/str (Hypergraph, replayed through the model) and int/str/tuple (DiHypergraph, SimplicialComplex); attribute "
+        "values scalars and lists/dicts/sets/tuples nested in each other.  Family cases (harness/c07_families.py, judged by the predicate only): "
+        "labels and edge IDs from the pools tuple, nested tuple, frozenset, bytes, date, enum, complex, float, numpy int, integers above 2**53 and "
+        "beyond float range; attribute values incl. numpy arrays, deque, bytearray, defaultdict, instances; bool and None IDs are not drawn",
         "sources that already violate another property's invariant (two-way incidence, simplicial closure) are skipped and counted, not charged to C07",
         "frame (Lean) speaks about code that writes only through its own network and fresh objects; that xgi's mutators do so (no module-level "
         "mutable state) is an assumption, exercised by (c) on every case",
@@ -1078,6 +1166,19 @@ def replay(ctx, path):
     if not (isinstance(case, dict) and "class" in case):
         print(f"replay {path}: no case in this replay (kind={j.get('kind')}); broken: {j.get('broken')}")
         return 2
+    if "family" in case:
+        try:
+            fails, _ = FAM.evaluate(case, WALKERS)
+        except FAM.Skip as s:
+            print(f"replay {path}: skipped: {s}")
+            return 0
+        if fails:
+            print(f"VIOLATION property={ctx.prop} replay={path}")
+            for site, slug, detail in fails[:3]:
+                print(f"  reproduced: site={site} class={slug}: {detail[:300]}")
+            return 1
+        print(f"replay {path}: not reproduced on the current tree (predicate holds)")
+        return 0
     try:
         fails, reqs, exps, _ = evaluate(case, want_model=True)
     except Skip as s:
